@@ -132,6 +132,11 @@ def main():
                 for name, body in final.items():
                     if not any(flat_defs(fresh[i]["defs"], key).get(name) == body for i in called):
                         bad.add("c16.def-differs")
+                # "each named definition equals the one a fresh context would produce for that type"
+                for name, body in final.items():
+                    fb = (d.get("freshByName") or {}).get(name)
+                    if fb and fb["ok"] and flat_defs(fb["defs"], key).get(name) != body:
+                        bad.add("c16.def-differs-from-type")
                 for i in called:
                     if fresh[i]["ok"]:
                         for name in flat_defs(fresh[i]["defs"], key):
